@@ -2,8 +2,7 @@
    These are the functions that are extracted, run against the compiled C, and that the
    property theorems are about.  Definitions only. *)
 From Coq Require Import Arith NArith List.
-From LCP Require Import Base.CheckedMem Gen.Repo_hash Alg.Words Alg.MDModel Alg.Sha256Model
-     Alg.MD32Model Alg.Sha1Model Alg.Md5Model Alg.HmacModel Alg.Pbkdf2Model.
+From LCP Require Import Base.CheckedMem Gen.Repo_hash Alg.Words Alg.MDModel Alg.Sha256Model Alg.MD32Model Alg.Sha1Model Alg.Md5Model Alg.HmacModel Alg.Pbkdf2Model.
 Import ListNotations.
 Local Open Scope N_scope.
 
